@@ -21,6 +21,7 @@ import OFV.Proofs.C03Chemist
 import OFV.Proofs.C03WeylSpec
 import OFV.Proofs.C03Canon3
 import OFV.Proofs.C03Exact
+import OFV.Proofs.C03Main
 import Mathlib.Tactic.NormNum
 
 namespace OFV.C03
